@@ -26,6 +26,7 @@ Three layers carry the quantifier "for all pairs of values of a floating type":
 import DuneVerif.Proofs.C17
 import DuneVerif.Proofs.C17M
 import DuneVerif.Proofs.C17Int
+import DuneVerif.Proofs.C17RT
 import Mathlib.Algebra.Order.Field.Rat
 import Mathlib.Algebra.Order.Field.Power
 import Mathlib.Algebra.Order.Floor.Ring
@@ -1212,5 +1213,155 @@ example : isNaNV isNaN1 [classify 8 23 0x3f800000, classify 8 23 0x7fc00000] = t
     isFiniteV isFinite1 [classify 8 23 0x3f800000, classify 8 23 0x7f800000] = false ∧
     isFiniteV isFinite1 [classify 8 23 0x3f800000, classify 8 23 0x00000001] = true := by decide
 
+
+/-! ## Round four: the regenerated rounding-style dispatch and the vector overloads of round / trunc
+
+`Gen/C17RT.lean` and `Gen/C17Vec.lean` are regenerated from float_cmp.cc on every run.  The theorems of this section are
+stated about those generated definitions: an edit of the dispatch (`if(val > T(0)) return round_t<…,downward>… else …upward…`)
+or of a component loop (bounds, the specialisation called, the styles / epsilon passed on, the helper a vector
+specialisation derives from) changes what Lean has to prove here. -/
+
+section roundfour_tie
+variable {K : Type} [Zero K] [Neg K] [Sub K] [Mul K] [LT K] [LE K] [DecidableLT K] [DecidableLE K] [IntCast K] [Add K]
+
+/-- the model's `round` for `towardZero` / `towardInf` is the dispatch read from the source, for every scalar type -/
+theorem round_dispatch_tied (s : Style) (tr : K → Int) (x e : K) :
+    round s .towardZero tr x e = GenRT.round_towardZero.run (fun rs => round s rs tr) x e ∧
+    round s .towardInf tr x e = GenRT.round_towardInf.run (fun rs => round s rs tr) x e := dispatch_round s tr x e
+
+theorem trunc_dispatch_tied (s : Style) (uns : Bool) (tr : K → Int) (x e : K) :
+    trunc s uns .towardZero tr x e = GenRT.trunc_towardZero.run (fun rs => trunc s uns rs tr) x e ∧
+    trunc s uns .towardInf tr x e = GenRT.trunc_towardInf.run (fun rs => trunc s uns rs tr) x e := dispatch_trunc s uns tr x e
+
+/-- … and so are the machine-integer versions the driver executes -/
+theorem roundM_dispatch_tied (t : IType) (s : Style) (tr : K → Int) (x e : K) :
+    roundM t s .towardZero tr x e = GenRT.round_towardZero.run (fun rs => roundM t s rs tr) x e ∧
+    roundM t s .towardInf tr x e = GenRT.round_towardInf.run (fun rs => roundM t s rs tr) x e := dispatch_roundM t s tr x e
+
+theorem truncM_dispatch_tied (t : IType) (s : Style) (tr : K → Int) (x e : K) :
+    truncM t s .towardZero tr x e = GenRT.trunc_towardZero.run (fun rs => truncM t s rs tr) x e ∧
+    truncM t s .towardInf tr x e = GenRT.trunc_towardInf.run (fun rs => truncM t s rs tr) x e := dispatch_truncM t s tr x e
+
+/-- the dispatching specialisations forward to `downward` / `upward` only (no recursion between them) -/
+theorem dispatch_no_recursion :
+    ∀ d ∈ [GenRT.round_towardZero, GenRT.round_towardInf, GenRT.trunc_towardZero, GenRT.trunc_towardInf],
+      (d.thenStyle = .downward ∨ d.thenStyle = .upward) ∧ (d.elseStyle = .downward ∨ d.elseStyle = .upward) :=
+  dispatch_targets_base
+
+-- -5/2 with absolute epsilon 1/8: toward zero -2, toward infinity -3 (a tie, so the direction decides)
+example : GenRT.round_towardZero.run (fun rs => roundM int32 .absolute rs Dy.trunc) (Dy.mk2 (-5) (-1)) (Dy.mk2 1 (-3)) = -2 ∧
+    GenRT.round_towardInf.run (fun rs => roundM int32 .absolute rs Dy.trunc) (Dy.mk2 (-5) (-1)) (Dy.mk2 1 (-3)) = -3 ∧
+    GenRT.trunc_towardZero.run (fun rs => truncM int32 .absolute rs Dy.trunc) (Dy.mk2 (-5) (-1)) (Dy.mk2 1 (-3)) = -2 ∧
+    GenRT.trunc_towardInf.run (fun rs => truncM int32 .absolute rs Dy.trunc) (Dy.mk2 (-5) (-1)) (Dy.mk2 1 (-3)) = -3 := by decide
+
+end roundfour_tie
+
+section roundfour_vec
+
+/-- **vector round / trunc = the scalar function applied to every component** — `std::vector` and `FieldVector`, every
+    rounding style, every length, every scalar type, whatever the component functions are
+    (after fixes/C17_vector_round_trunc.patch; before it these overloads cannot be instantiated) -/
+theorem vec_round_trunc_eq_map {K : Type} [Zero K] (round_t trunc_t : Style → RStyle → K → K → Int) (cs : Style) (rs : RStyle)
+    (v : List K) (e : K) :
+    GenVec.round_std_vec round_t trunc_t cs rs v e = v.map (fun x => round_t cs rs x e) ∧
+    GenVec.round_fvec round_t trunc_t cs rs v e = v.map (fun x => round_t cs rs x e) ∧
+    GenVec.trunc_std_vec round_t trunc_t cs rs v e = v.map (fun x => trunc_t cs rs x e) ∧
+    GenVec.trunc_fvec round_t trunc_t cs rs v e = v.map (fun x => trunc_t cs rs x e) := vec_eq_map round_t trunc_t cs rs v e
+
+example : GenVec.round_std_vec (fun s rs x e => roundM int32 s rs Dy.trunc x e) (fun s rs x e => truncM int32 s rs Dy.trunc x e)
+      .absolute .downward [Dy.mk2 1 (-1), Dy.mk2 (-5) (-1), Dy.mk2 3 0] (Dy.mk2 1 (-3)) = [0, -3, 3] ∧
+    GenVec.trunc_fvec (fun s rs x e => roundM uint8 s rs Dy.trunc x e) (fun s rs x e => truncM uint8 s rs Dy.trunc x e)
+      .absolute .upward [Dy.mk2 1 (-1), Dy.mk2 (-1) (-1), Dy.mk2 3 0] (Dy.mk2 1 (-3)) = [1, 0, 3] := by decide
+
+variable {K : Type} [Field K] [LinearOrder K] [IsStrictOrderedRing K]
+
+/-- the scalar specialisations as the vector loops see them -/
+abbrev roundT (tr : K → Int) : Style → RStyle → K → K → Int := fun s rs x e => round s rs tr x e
+abbrev truncT (uns : Bool) (tr : K → Int) : Style → RStyle → K → K → Int := fun s rs x e => trunc s uns rs tr x e
+abbrev roundMT (t : IType) (tr : K → Int) : Style → RStyle → K → K → Int := fun s rs x e => roundM t s rs tr x e
+abbrev truncMT (t : IType) (tr : K → Int) : Style → RStyle → K → K → Int := fun s rs x e => truncM t s rs tr x e
+
+/-- **vector round: every component of the result is within the documented distance of the corresponding component of the
+    argument** (`round_within` lifted through the regenerated loops; all lengths) -/
+theorem vec_round_within (s : Style) (rs : RStyle) {tr : K → Int} (htr : IsTrunc tr) (v : List K) (e : K) (h0 : 0 ≤ e) :
+    let P := fun (x : K) (r : Int) => |((r : Int) : K) - x| < 1 ∧ (eqS s ((r : Int) : K) x e = true ∨ |((r : Int) : K) - x| ≤ 1 / 2 + e / 2)
+    Componentwise P v (GenVec.round_std_vec (roundT tr) (truncT false tr) s rs v e) ∧
+    Componentwise P v (GenVec.round_fvec (roundT tr) (truncT false tr) s rs v e) := by
+  intro P
+  obtain ⟨h1, h2, _, _⟩ := vec_eq_map (roundT tr) (truncT false tr) s rs v e
+  rw [h1, h2]
+  exact ⟨componentwise_map P _ v (fun x _ => round_within s rs htr x e h0),
+         componentwise_map P _ v (fun x _ => round_within s rs htr x e h0)⟩
+
+/-- **vector trunc: every component is `⌊x⌋` or `⌊x⌋+1` of its argument component, `x-1 < r ≤ x+1`** -/
+theorem vec_trunc_within (s : Style) (rs : RStyle) {tr : K → Int} (htr : IsTrunc tr) (v : List K) (e : K) (h0 : 0 ≤ e) :
+    let P := fun (x : K) (r : Int) => (r = floorOf tr x ∨ r = floorOf tr x + 1) ∧ x - 1 < ((r : Int) : K) ∧ ((r : Int) : K) ≤ x + 1
+    Componentwise P v (GenVec.trunc_std_vec (roundT tr) (truncT false tr) s rs v e) ∧
+    Componentwise P v (GenVec.trunc_fvec (roundT tr) (truncT false tr) s rs v e) := by
+  intro P
+  obtain ⟨_, _, h3, h4⟩ := vec_eq_map (roundT tr) (truncT false tr) s rs v e
+  rw [h3, h4]
+  exact ⟨componentwise_map P _ v (fun x _ => trunc_within s rs htr x e h0),
+         componentwise_map P _ v (fun x _ => trunc_within s rs htr x e h0)⟩
+
+/-- the vector overloads with the integer target type explicit (what the driver executes) are the mathematical ones whenever
+    nothing wraps around in any component (`noWrap_cases`) -/
+theorem vec_roundM_truncM_eq (t : IType) (s : Style) (rs : RStyle) {tr : K → Int} (v : List K) (e : K)
+    (h : ∀ x ∈ v, NoWrap t tr x) :
+    GenVec.round_std_vec (roundMT t tr) (truncMT t tr) s rs v e = GenVec.round_std_vec (roundT tr) (truncT (!t.signed) tr) s rs v e ∧
+    GenVec.round_fvec (roundMT t tr) (truncMT t tr) s rs v e = GenVec.round_fvec (roundT tr) (truncT (!t.signed) tr) s rs v e ∧
+    GenVec.trunc_std_vec (roundMT t tr) (truncMT t tr) s rs v e = GenVec.trunc_std_vec (roundT tr) (truncT (!t.signed) tr) s rs v e ∧
+    GenVec.trunc_fvec (roundMT t tr) (truncMT t tr) s rs v e = GenVec.trunc_fvec (roundT tr) (truncT (!t.signed) tr) s rs v e := by
+  obtain ⟨a1, a2, a3, a4⟩ := vec_eq_map (roundMT t tr) (truncMT t tr) s rs v e
+  obtain ⟨b1, b2, b3, b4⟩ := vec_eq_map (roundT tr) (truncT (!t.signed) tr) s rs v e
+  rw [a1, a2, a3, a4, b1, b2, b3, b4]
+  refine ⟨?_, ?_, ?_, ?_⟩ <;> apply List.map_congr_left <;> intro x hx
+  · exact roundM_eq_round t s rs x e (h x hx)
+  · exact roundM_eq_round t s rs x e (h x hx)
+  · exact truncM_eq_trunc t s rs x e (h x hx)
+  · exact truncM_eq_trunc t s rs x e (h x hx)
+
+-- [1/2, -5/2, 3] over ℚ, absolute epsilon 1/8: hypotheses satisfiable (trQ is a truncation, every int32 component is NoWrap)
+example : Componentwise (fun (x : ℚ) (r : Int) => |((r : Int) : ℚ) - x| < 1 ∧
+      (eqS .absolute ((r : Int) : ℚ) x (1/8) = true ∨ |((r : Int) : ℚ) - x| ≤ 1 / 2 + (1/8) / 2))
+    [1/2, -5/2, 3] (GenVec.round_std_vec (roundT trQ) (truncT false trQ) .absolute .downward [1/2, -5/2, 3] (1/8)) :=
+  (vec_round_within .absolute .downward trQ_isTrunc [1/2, -5/2, 3] (1/8) (by norm_num)).1
+example : ∀ x ∈ ([1/2, -5/2, 3] : List ℚ), NoWrap int32 trQ x :=
+  fun x _ => noWrap_cases int32 trQ_isTrunc x (Or.inl ⟨rfl, by decide⟩)
+
+end roundfour_vec
+
+section floating4
+variable {f : Fmt}
+
+/-- in the rounding arithmetic of every format: the vector overloads of round and trunc return a vector of integer-valued
+    numbers unchanged (component `p = (n, i)`: the number `.fin n` is `T(i)` and `I(.fin n) = i`), every length, every style -/
+theorem fp_vec_round_trunc_int (s : Style) (rs : RStyle) (m : Int) (hm : 0 ≤ m) (c : List (Int × Int))
+    (h : ∀ p ∈ c, ((p.2 : Int) : FP f) = .fin p.1 ∧ FP.trunc (.fin p.1 : FP f) = p.2) :
+    let rT : Style → RStyle → FP f → FP f → Int := fun s rs x e => round s rs FP.trunc x e
+    let tT : Style → RStyle → FP f → FP f → Int := fun s rs x e => trunc s false rs FP.trunc x e
+    let v : List (FP f) := c.map fun p => .fin p.1
+    GenVec.round_std_vec rT tT s rs v (.fin m) = c.map (·.2) ∧ GenVec.round_fvec rT tT s rs v (.fin m) = c.map (·.2) ∧
+    GenVec.trunc_std_vec rT tT s rs v (.fin m) = c.map (·.2) ∧ GenVec.trunc_fvec rT tT s rs v (.fin m) = c.map (·.2) := by
+  intro rT tT v
+  obtain ⟨h1, h2, h3, h4⟩ := vec_eq_map rT tT s rs v (.fin m)
+  rw [h1, h2, h3, h4]
+  have hr : v.map (fun x => rT s rs x (.fin m)) = c.map (·.2) := by
+    simp only [v, List.map_map]
+    apply List.map_congr_left
+    intro p hp
+    exact (fp_round_trunc_int s rs p.1 p.2 m hm (h p hp).1 (h p hp).2).1
+  have ht : v.map (fun x => tT s rs x (.fin m)) = c.map (·.2) := by
+    simp only [v, List.map_map]
+    apply List.map_congr_left
+    intro p hp
+    exact (fp_round_trunc_int s rs p.1 p.2 m hm (h p hp).1 (h p hp).2).2
+  exact ⟨hr, hr, ht, ht⟩
+
+-- the 8-bit format (grid unit 2^-9): the vector (16, -3, 0); 17 is not a number of the format, so `16+1` converts back to 16
+example : ∀ p ∈ [((8192 : Int), (16 : Int)), (-1536, -3), (0, 0)],
+    ((p.2 : Int) : FP Fmt.mf8) = .fin p.1 ∧ FP.trunc (.fin p.1 : FP Fmt.mf8) = p.2 := by decide
+
+end floating4
 
 end DV.C17
